@@ -37,6 +37,9 @@ def cases(tier, rng, schema, feats):
         msgs.append(bytes([b]))
     for v in range(0x42, 0x80):
         msgs.append(bytes([v]))
+    # Request::Vendor(code) constructed directly, for ALL 64 vendor codes (0x40 and 0x41 never come out of the decoder)
+    for v in range(0x3e, 0x82):
+        msgs.append(bytes([0xff, v]))
     for m in msgs:
         for beh in ERRS:
             for entry in ("call", "rpc"):
@@ -67,6 +70,8 @@ def judge(line, m, i):
     p = line.split("\t")
     if p[1] == "dispatch2" and i and i.startswith("log="):
         cmd = int(p[5][:2], 16)
+        if cmd == 0xff:
+            cmd = 0x7f  # directly constructed vendor request
         h = HANDLER.get(cmd, "vendor")
         r = RESP.get(cmd, "Vendor")
         beh, lbo = p[3], p[4]
